@@ -611,7 +611,6 @@ Proof.
   - apply node_L.
   - apply rec_guard_L.
   - apply rec_guard_w_L.
-  - apply assert_balanced_L.
   - apply debug_assert_L.
   - apply name_L; exact Hall.
   - intros rec. apply parse_body_L; exact Hall.
@@ -656,7 +655,7 @@ Proof.
 Qed.
 (* ---- the three entries satisfy the generic spec *)
 Lemma document_spec orig fuel : Forall item_name_ok orig -> specR (CL orig) (g_document fuel).
-Proof. intros H. apply gg_document. apply CL_ok; exact H. Qed.
+Proof. intros H. apply gg_document; [apply CL_ok; exact H|apply assert_balanced_L]. Qed.
 Lemma field_set_spec orig fuel : Forall item_name_ok orig -> specR (CL orig) (g_field_set fuel).
 Proof. intros H. apply gg_field_set. apply CL_ok; exact H. Qed.
 Lemma type_entry_spec orig fuel : Forall item_name_ok orig -> specR (CL orig) (g_type_entry fuel).
